@@ -73,3 +73,5 @@ pub mod c29;
 pub mod c36;
 pub mod c38;
 pub mod c39;
+pub mod c33;
+pub mod c32;
